@@ -10,9 +10,24 @@ Case kinds
   symbolic  circuit with symbolic / expression parameters: operation lists compared exactly (parameters are opaque to
             the model); the oracle binds the symbols and checks the action
   rule      U3GateToRotation.predicate / .production called directly on one operation
-  chain     the generic decompose_operations on integer "operations" with toy rules (order of rules, exceptions)
+  chain     the generic decompose_operations on integer "operations" with toy rules (order of rules, exceptions);
+            rules may hand out one stored list / a tuple / a generator, one rule object may stand twice in the list, rules
+            may compare equal, inputs may be tuples / generators, 60-140 operations; the call is repeated on the same
+            rule objects, made operation by operation (decompose_operation), and the caller's lists are checked afterwards
+  exotic    circuits whose parameters are TYPED values (Python int / float, sympy Rational / pi multiples / Symbol /
+            Dummy / expressions with a bound variable) drawn from a small palette with engineered relations between
+            sibling operations (equal triples on other qubits / other control counts / the same qubit set in another
+            order, triples differing by 1e-9, by -1 -> -2 (equal hashes), by type, U3(t, t, t), phi = -lambda exactly and
+            nearly, angles of 1e-8 and of 1e3); sub-streams: 64-140 operations, registers of 10-12 qubits with
+            multi-digit indices and up to 5 controls.  Operation lists are compared with the model (parameters opaque);
+            the action is computed by the harness's own state-vector simulation from the library's gate matrices and
+            compared to 1e-10; every call variant (long-lived rule objects shared by all cases, rules as a tuple,
+            operation by operation, generator input, second call after the first result was modified) is judged too
+  history   a script on long-lived objects: circuits are created (each a sibling of the previous one), decomposed,
+            the RESULTS and the INPUTS are modified through the live `operations` list (insert / replace / delete) or
+            `+`, and decomposed again with the same rule objects; every decomposition is judged against the operations
+            its input held at the moment of the call
 """
-import math
 from fractions import Fraction
 
 from .. import circ, common
@@ -22,17 +37,35 @@ PROP = "C18"
 RULE = ("seeded random circuits of 1-8 operations on 1-4 (thorough: 1-5) qubits mixing plain U3, U3 with 1-3 controls "
         "(half of them with phi+lambda = 0), non-matching wrappers of U3 (dagger, power, controlled dagger), other "
         "built-in gates, custom Gaussian-integer gates, non-gate operations, declared widths with idle qubits, 0-3 copies "
-        "of the bundled rule; symbolic-parameter circuits; direct rule calls incl. malformed operations; toy-rule chains "
-        "over integers.  non-trivial: rules >= 1 and the circuit holds a (plain or controlled) U3 next to another "
-        "operation, or a chain of >= 2 rules of which >= 1 matches; distinct = distinct canonical JSON of the case")
+        "of the bundled rule; symbolic-parameter circuits; direct rule calls incl. malformed operations (asked twice, and of "
+        "a rule object shared by all cases); toy-rule chains over integers (stored / tuple / generator productions, one rule "
+        "object twice, equal rules, tuple / generator inputs, 60-140 operations, repeated and operation-by-operation calls); "
+        "exotic circuits: typed parameters (int, float, Rational, pi multiples, Symbol of any name, Dummy, bound variables) "
+        "from families of sibling triples (equal / 1e-9 apart / equal hashes / other type / U3(t,t,t) / phi = -lambda exactly "
+        "and nearly / 1e-8 / 1e3), twin operations differing in one component, 64-140 operations, registers of 10-12 qubits "
+        "with up to 5 controls, rule lists mixing the bundled rule with two fixture rules that feed it, seven call variants "
+        "each; histories on long-lived circuits and rule objects (results and inputs modified between calls).  "
+        "non-trivial: rules >= 1 and the circuit holds a (plain or controlled) U3 next to another operation, a chain of >= 2 "
+        "rules of which >= 1 matches, or a history with >= 2 decompositions; distinct = distinct canonical JSON of the case")
 TRUSTED = ["sympy: `simplify` in u3_matrix returns a matrix equal to RZ(phi)RY(theta)RZ(lambda)/exp(-i(phi+lambda)/2) "
            "(the model uses the closed form; checked entrywise to 1e-9 on every compared case)",
            "numpy float arithmetic within 1e-9 (scaled) of the exact Q(zeta_8) values on the compared cases",
            "Circuit.to_unitary / gate matrices of non-U3 gates are those of the shared models (properties C01, C02, C07)",
-           "identification of Lift.liftMatrix with Spec.lift (property C01)"]
+           "identification of Lift.liftMatrix with Spec.lift (property C01)",
+           "exotic / history / rule kinds: the action of a gate is the library's own `gate.matrix` (after `bind`), placed on "
+           "its qubits by the harness (numpy tensordot, qubit 0 most significant; equal to Circuit.to_unitary to 3e-16 on "
+           "random circuits); double rounding stays below 1e-10 for <= 150 gates with angles <= 1.3e3",
+           "the fixture rules RX(t) -> U3(t, -pi/2, pi/2) and SWAP -> 3 CNOT are action preserving (their output is judged by "
+           "the same action oracle on every case)"]
 ASSUMPTIONS = ["gate parameters are passed through by reference: the model treats them as opaque values",
                "toy rules use Python int // 2 and % m with m > 0 (= Lean Int ediv/emod)",
-               "a custom gate must not reuse the reserved name 'U3' (hypothesis BuiltinU3 of the theorems)"]
+               "a custom gate must not reuse the reserved name 'U3' (hypothesis BuiltinU3 of the theorems)",
+               "`Circuit.operations` is the circuit's live list: callers may insert / replace / delete operations through it "
+               "(were it not a list, the history kind rebuilds the circuit instead)",
+               "a result that IS the input object (empty rule list) counts as 'returned unchanged'; what the caller then does "
+               "to it is the caller's change of the input",
+               "gate parameters numpy cannot hand to sympy 1.9 (np.float64) and negative qubit indices are outside the domain: "
+               "the library itself cannot build the U3 matrix / the register for them"]
 
 KNOWN_SIG = "controlled-u3-relative-phase"
 OTHER_BUILTINS = [g for g in circ.BUILTIN_PARAMS if g not in ("U3", "Delay")]
@@ -53,6 +86,7 @@ class _Table:
 
     def __init__(self):
         self.items = []
+        self.dummies = {}
 
     def add(self, obj, token):
         self.items.append((obj, token))
@@ -77,9 +111,55 @@ class _Table:
         return {"unknown": repr(obj)[:60]}
 
 
+def _param(tok, tab):
+    """typed parameter token -> the object handed to the library.  str: sympify (symbols a, b, c, k, numbers, pi);
+    {"f": repr} Python float; {"i": n} Python int; {"q": "p/q"} sympy Rational; {"s": name} sympy Symbol of that
+    name (whatever the name); {"d": name, "j": j} the j-th sympy Dummy of that name (one object per case)"""
+    import sympy
+    if isinstance(tok, str):
+        return sympy.sympify(tok)
+    if "f" in tok:
+        return float(tok["f"])
+    if "i" in tok:
+        return int(tok["i"])
+    if "q" in tok:
+        return sympy.Rational(tok["q"])
+    if "s" in tok:
+        return sympy.Symbol(tok["s"])
+    if "d" in tok:
+        key = (tok["d"], tok.get("j", 0))
+        if key not in tab.dummies:
+            tab.dummies[key] = sympy.Dummy(tok["d"])
+        return tab.dummies[key]
+    raise ValueError(f"bad parameter token {tok}")
+
+
+def _bindmap(c, tab):
+    """{symbol object: float} of a case; key "name" -> Symbol(name), "~name#j" -> the j-th Dummy of that name"""
+    import sympy
+    m = {}
+    for key, v in (c.get("bind") or {}).items():
+        if key.startswith("~"):
+            name, j = key[1:].rsplit("#", 1)
+            sym = _param({"d": name, "j": int(j)}, tab)
+        else:
+            sym = sympy.Symbol(key)
+        m[sym] = float(unrat(v))
+    return m
+
+
+def _tok_value(tok, tab, bind):
+    """float value of a parameter token under the binding (harness-side evaluation, independent of the library)"""
+    import sympy
+    v = _param(tok, tab)
+    if isinstance(v, (int, float)):
+        return float(v)
+    v = sympy.sympify(v).subs(bind or {}).doit()
+    return float(sympy.N(v))
+
+
 def _gate(spec, tab, customs):
     oqc, _gates, _, _ = _mods()
-    import sympy
     if "controlled" in spec:
         return _gate(spec["controlled"], tab, customs).controlled(spec["k"])
     if "dagger" in spec:
@@ -93,7 +173,9 @@ def _gate(spec, tab, customs):
     name = spec["gate"]
     ref = getattr(oqc, name)
     if "sym" in spec:
-        return ref(*[tab.add(sympy.sympify(s), s) for s in spec["sym"]])
+        if not spec["sym"] and circ.BUILTIN_PARAMS[name] == 0:
+            return ref
+        return ref(*[tab.add(_param(s, tab), s) for s in spec["sym"]])
     if not spec["angles"] and circ.BUILTIN_PARAMS[name] == 0:
         return ref
     return ref(*[tab.add(circ.theta_of(a), a) for a in spec["angles"]])
@@ -231,7 +313,20 @@ A35N = ["3/5", "-4/5"]
 A513 = ["5/13", "12/13"]
 
 
+def _xu3(t, qs):
+    g = {"gate": "U3", "sym": list(t)}
+    return {"g": {"controlled": g, "k": len(qs) - 1} if len(qs) > 1 else g, "qs": list(qs)}
+
+
+T1 = [{"f": "0.81"}, "pi/3", {"q": "-2/7"}]
+T1C = [{"f": "0.81"}, "pi/3", "-(pi/3)"]     # phi + lambda = 0: the controlled rule is exact
+
+
 def corpus():
+    return [_canon_case(c) if c["kind"] in ("exotic", "history") else c for c in _corpus()]
+
+
+def _corpus():
     x0 = {"g": {"gate": "X", "angles": []}, "qs": [0]}
     return [
         # plain U3 (phi + lambda != 0) between other gates, one rule
@@ -263,6 +358,62 @@ def corpus():
         {"kind": "chain", "ops": [4, 3], "rules": [{"pred": ["mod", 2, 0], "prod": ["split"]}, {"pred": ["gt", 2], "prod": ["dec"]}]},
         {"kind": "chain", "ops": [4, 3], "rules": [{"pred": ["gt", 2], "prod": ["dec"]}, {"pred": ["mod", 2, 0], "prod": ["split"]}]},
         {"kind": "chain", "ops": [1, 2, 3], "rules": []},
+        # ---- hardening round (classes A-G of subtle changes)
+        # no operation matches / no operation at all, declared width, rules given
+        {"kind": "circuit", "n": 3, "rules": 1, "ops": [x0, {"g": {"gate": "CNOT", "angles": []}, "qs": [1, 0]}]},
+        {"kind": "circuit", "n": 2, "rules": 2, "ops": []},
+        # parameters with equal hashes (hash(-1) == hash(-2)), as int and as float
+        {"kind": "exotic", "n": None, "rules": 1, "ops": [_xu3([{"i": -1}, {"f": "0.5"}, {"f": "0.25"}], [0]),
+                                                          _xu3([{"i": -2}, {"f": "0.5"}, {"f": "0.25"}], [0]),
+                                                          _xu3([{"f": "-1.0"}, "pi/2", {"q": "1/3"}], [1]),
+                                                          _xu3([{"f": "-2.0"}, "pi/2", {"q": "1/3"}], [1])]},
+        # one parameter triple on other qubits, other control counts, the same qubit set in another order
+        {"kind": "exotic", "n": None, "rules": 1, "ops": [_xu3(T1, [0]), _xu3(T1, [1]), _xu3(T1C, [0, 1]), _xu3(T1C, [1, 0]),
+                                                          _xu3(T1C, [2, 0, 1]), _xu3(T1C, [0, 2, 1])]},
+        # triples differing by 1e-9 (the gates compare equal), angles of 1e-8, U3(t, t, t)
+        {"kind": "exotic", "n": None, "rules": 1, "ops": [_xu3([{"f": "0.3"}, {"f": "1.1"}, {"f": "-0.7"}], [0]),
+                                                          _xu3([{"f": "0.300000001"}, {"f": "1.1"}, {"f": "-0.7"}], [0]),
+                                                          {"g": {"gate": "H", "sym": []}, "qs": [0]},
+                                                          _xu3([{"f": "8e-09"}, {"f": "-6e-09"}, {"f": "9.5e-09"}], [0]),
+                                                          _xu3([{"f": "0.9"}, {"f": "0.9"}, {"f": "0.9"}], [0])]},
+        # phi = -lambda nearly (relative 4e-6) on a controlled U3 with large angles: the documented relative phase, nothing more
+        {"kind": "exotic", "n": None, "rules": 1, "ops": [_xu3([{"f": "0.7"}, {"f": "1000.0"}, {"f": "-1000.004"}], [1, 0]),
+                                                          _xu3([{"f": "0.7"}, {"f": "1000.0"}, {"f": "-1000.0"}], [1, 0])]},
+        # two Dummy symbols of one name, a Symbol printing like them, symbols named like constants / functions, a bound variable
+        {"kind": "exotic", "n": None, "rules": 1, "bind": dict(DEFAULT_BIND, **{"~a#0": "1/2", "~a#1": "-5/4", "_a": "9/8", "pi": "3/8",
+                                                                                "lambda": "-7/8", "E": "5/8", "I": "11/8"}),
+         "ops": [_xu3([{"d": "a", "j": 0}, "b", "-b"], [0]), _xu3([{"d": "a", "j": 1}, "b", "-b"], [0]),
+                 _xu3([{"s": "_a"}, "b", "-b"], [0]), _xu3(["a", "b", "-b"], [0]),
+                 _xu3([{"s": "pi"}, {"s": "lambda"}, {"s": "E"}], [1]), _xu3(["pi", {"s": "I"}, "Sum(a*k,(k,0,2))"], [1]),
+                 _xu3(["k", "2*k", "k/2"], [1])]},
+        # 65 operations; multi-digit qubit indices whose digits concatenate alike
+        {"kind": "exotic", "n": 3, "rules": 1, "ops": [_xu3(T1, [i % 3]) if i % 2 else {"g": {"gate": "H", "sym": []}, "qs": [i % 2]}
+                                                       for i in range(64)] + [_xu3(T1C, [2, 0])]},
+        {"kind": "exotic", "n": 12, "rules": 1, "ops": [_xu3(T1C, [1, 10]), _xu3(T1C, [11, 0]), _xu3(T1C, [1, 0, 11]), _xu3(T1, [10])]},
+        # four and five controls given in no particular order, on a wide register
+        {"kind": "exotic", "n": 11, "rules": 1, "ops": [_xu3(T1C, [10, 3, 0, 2, 1]), {"g": {"gate": "H", "sym": []}, "qs": [3]},
+                                                        _xu3(T1C, [6, 7, 10, 9, 8, 5]), _xu3(T1C, [0, 1, 2, 3, 10])]},
+        # rule lists whose rules feed each other, in both orders
+        {"kind": "exotic", "n": None, "rules": 2, "rule_list": ["rx", "u3"],
+         "ops": [{"g": {"gate": "RX", "sym": [{"f": "0.4"}]}, "qs": [0]}, _xu3(T1, [1]), {"g": {"gate": "SWAP", "sym": []}, "qs": [1, 0]}]},
+        {"kind": "exotic", "n": None, "rules": 3, "rule_list": ["u3", "rx", "swap"],
+         "ops": [{"g": {"gate": "RX", "sym": [{"f": "0.4"}]}, "qs": [0]}, _xu3(T1, [1]), {"g": {"gate": "SWAP", "sym": []}, "qs": [1, 0]}]},
+        {"kind": "exotic", "n": None, "rules": 3, "rule_list": ["u3", "rx", "u3"],
+         "ops": [{"g": {"gate": "RX", "sym": [{"f": "0.4"}]}, "qs": [0]}, _xu3(T1, [1]), {"g": {"gate": "SWAP", "sym": []}, "qs": [1, 0]}]},
+        # results and inputs modified between calls, the same rule objects throughout
+        {"kind": "history", "n": 2, "rule_objects": "fresh", "steps": [
+            {"new": [_xu3(T1, [0]), {"g": {"gate": "H", "sym": []}, "qs": [1]}]}, {"dec": 0, "rules": 1},
+            {"on": 1, "ins": 1, "op": _xu3(T1, [1])}, {"dec": 1, "rules": 1}, {"dec": 0, "rules": 1},
+            {"on": 0, "set": 0, "op": _xu3(T1C, [1, 0])}, {"dec": 0, "rules": 1},
+            {"on": 0, "del": 0}, {"on": 0, "ins": 0, "op": _xu3(T1, [1])}, {"dec": 0, "rules": 1},
+            {"plus": 1, "op": _xu3(T1, [0])}, {"dec": 6, "rules": 2}]},
+        # toy rules: one stored list handed out every time, one rule object twice, equal rules, tuples, 65 operations
+        {"kind": "chain", "ops": [4, 4, 3, 4], "rules": [{"pred": ["mod", 2, 0], "prod": ["const", [7, 0]], "shared": True},
+                                                         {"pred": ["gt", 5], "prod": ["split"], "shared": True}]},
+        {"kind": "chain", "ops": [1, 2], "rules": [{"pred": ["always"], "prod": ["inc", 1]}, {"same": 0}, {"same": 0}]},
+        {"kind": "chain", "ops": [1, 2], "eq": True, "rules_as": "tuple", "ops_as": "tuple",
+         "rules": [{"pred": ["always"], "prod": ["inc", 1]}, {"pred": ["always"], "prod": ["inc", 1]}]},
+        {"kind": "chain", "ops": list(range(65)), "ops_as": "gen", "rules": [{"pred": ["mod", 3, 1], "prod": ["dup"], "ret": "gen"}]},
     ]
 
 
@@ -322,6 +473,341 @@ def _rand_circuit(rng, n, length, sym=False, nongate=True):
     return ops, (declared if declared else None)
 
 
+# ---- typed parameters (exotic / history kinds)
+def _num_tok(rng, big=True):
+    r = rng.random() * (1.0 if big else 0.85)
+    if r < 0.28:
+        return {"f": repr(round(rng.uniform(-6.5, 6.5), rng.choice([1, 3, 12])))}
+    if r < 0.43:
+        return {"i": rng.randrange(-3, 4)}
+    if r < 0.53:
+        return {"q": f"{rng.randrange(-9, 10)}/{rng.choice([2, 3, 4, 5, 7])}"}
+    if r < 0.68:
+        return rng.choice(["pi/2", "pi", "-pi/3", "2*pi", "pi/4", "-pi", "3*pi/2", "0", "5*pi", "-7*pi/2"])
+    if r < 0.76:
+        return {"f": rng.choice(["0.0", "-0.0", "-1.0", "-2.0", "1.0"])}
+    if r < 0.85:
+        return {"f": rng.choice(["8e-09", "-6e-09", "3e-09", "9.5e-09"])}
+    if r < 0.92:
+        return {"f": rng.choice(["1000.0", "-1000.004", "1234.5678", "-250.5", "62.83185307179586"])}
+    return {"f": repr(rng.uniform(-13, 13))}
+
+
+SYM_TOKENS = ["a", "b", "c", "k", "a+b", "2*a", "-c", "a*b", "b/2", "a-b", {"s": "pi"}, {"s": "lambda"}, {"s": "E"},
+              {"s": "I"}, {"s": "_a"}, {"s": "beta_10"}, {"s": "RZ"}, {"s": "theta"}, {"d": "a", "j": 0}, {"d": "a", "j": 1},
+              "Sum(a*k,(k,0,2))", "Sum(k,(k,1,3))/4"]
+SYM_NAMES = ["a", "b", "c", "k", "pi", "lambda", "E", "I", "_a", "beta_10", "RZ", "theta", "~a#0", "~a#1"]
+
+
+def _sym_bind(rng):
+    vals = rng.sample(range(-15, 16), len(SYM_NAMES))
+    return {nm: rat(Fraction(v, 8)) for nm, v in zip(SYM_NAMES, vals)}
+
+
+def _canon_tok(tok):
+    """one token per object: sympy hands out the SAME object for equal numbers / expressions however they were written
+    ('-(0)' and '0', Rational(4, 2) and 2), so every sympy-valued token is written as str(value)"""
+    import sympy
+    if isinstance(tok, str):
+        return str(sympy.sympify(tok))
+    if "q" in tok:
+        return str(sympy.Rational(tok["q"]))
+    if "f" in tok:
+        return {"f": repr(float(tok["f"]))}
+    return tok
+
+
+def _canon_case(x):
+    if isinstance(x, dict):
+        return {k: ([_canon_tok(t) for t in v] if k == "sym" else _canon_case(v)) for k, v in x.items()}
+    if isinstance(x, list):
+        return [_canon_case(v) for v in x]
+    return x
+
+
+def _is_numeric_tok(tok):
+    if isinstance(tok, dict):
+        return not ("s" in tok or "d" in tok)
+    return not any(ch.isalpha() for ch in tok.replace("pi", ""))
+
+
+def _neg_tok(tok):
+    if isinstance(tok, str):
+        return "-(" + tok + ")"
+    if "f" in tok:
+        return {"f": repr(-float(tok["f"]))}
+    if "i" in tok:
+        return {"i": -tok["i"]}
+    if "q" in tok:
+        return {"q": str(-Fraction(tok["q"]))}
+    return None  # a Symbol / Dummy token has no negated token
+
+HASH_TWINS = [({"i": -1}, {"i": -2}), ({"f": "-1.0"}, {"f": "-2.0"}), ({"q": "-1/1"}, {"q": "-2/1"})]   # hash(-1) == hash(-2)
+
+
+def _family(rng, symbolic=False, big=True):
+    """2-4 parameter triples with engineered relations: a base triple and its siblings (big=False: no angles beyond
+    13 rad, so that rounding of phi + lambda cannot add up over 140 operations)"""
+    def tok():
+        return rng.choice(SYM_TOKENS) if symbolic and rng.random() < 0.6 else _num_tok(rng, big)
+
+    def value(t):
+        return _tok_value(t, _Table(), {})
+
+    base = [tok(), tok(), tok()]
+    hows = rng.sample(["dup", "near", "hash", "swap", "neg", "type", "alleq", "cancel", "one", "dummy"]
+                      + (["nearcancel"] if big else []), rng.randrange(1, 4))
+    if symbolic and rng.random() < 0.35 and "dummy" not in hows:
+        hows.append("dummy")
+    twin = rng.choice(HASH_TWINS)
+    jh = rng.randrange(3)
+    if "hash" in hows:
+        base[jh] = twin[0]
+    if "dummy" in hows and symbolic:
+        base[rng.randrange(3)] = {"d": "a", "j": 0}
+    fam = [base]
+    for how in hows:
+        t = list(base)
+        j = rng.randrange(3)
+        num = _is_numeric_tok(t[j])
+        if how == "near" and num:
+            t[j] = {"f": repr(value(t[j]) + rng.choice([1e-9, 2e-9, -3e-9, 4e-9]))}
+        elif how == "hash":
+            t[jh] = twin[1]
+        elif how == "swap":
+            a, b = rng.sample(range(3), 2)
+            t[a], t[b] = t[b], t[a]
+        elif how == "neg" and num:
+            t[j] = _neg_tok(t[j])
+        elif how == "type" and num:        # the same (or the nearest) value as another type
+            v = value(t[j])
+            if isinstance(t[j], dict) and "f" in t[j] and v == int(v):
+                t[j] = {"i": int(v)}
+            elif isinstance(t[j], dict) and "i" in t[j]:
+                t[j] = rng.choice([{"f": repr(v)}, {"q": f"{int(v)}/1"}])
+            else:
+                t[j] = {"f": repr(v)}
+        elif how == "alleq":
+            t = [t[j]] * 3
+        elif how == "cancel":
+            t = _cancelled(t)
+        elif how == "nearcancel":
+            if rng.random() < 0.5:
+                t[1], t[2] = {"f": "1000.0"}, {"f": "-1000.004"}
+            else:
+                v = round(rng.uniform(40, 400), 3)
+                t[1], t[2] = {"f": repr(v)}, {"f": repr(-v * (1 + 3e-6))}
+        elif how == "one":
+            t[j] = tok()
+        elif how == "dummy" and symbolic:  # another Dummy of the same name; a Symbol that prints like the Dummy
+            t = [({"d": "a", "j": 1} if x == {"d": "a", "j": 0} else x) for x in t]
+            if rng.random() < 0.5:
+                fam.append([({"s": "_a"} if x == {"d": "a", "j": 0} else x) for x in base])
+        fam.append(t)
+    return fam
+
+
+def _cancelled(t):
+    """the triple with lambda := -phi (controlled U3 in the domain where the bundled rule is exact)"""
+    ng = _neg_tok(t[1])
+    return [t[0], t[1], ng] if ng is not None else [t[0], "a", "-a"]
+
+
+OTHER_PLAIN = ["H", "X", "Y", "Z", "S", "T", "CNOT", "CZ", "SWAP"]
+
+
+def _typed_other(rng, n, symbolic=False, nongate=False, big=True):
+    cands = [g for g in OTHER_PLAIN if circ.BUILTIN_QUBITS[g] <= n]
+    if nongate and rng.random() < 0.12:      # operations that are not gates: no rule applies to them
+        if rng.random() < 0.5:
+            return {"other": "reset", "qs": [rng.randrange(n)]}
+        w = rng.randrange(1, min(n, 3) + 1)
+        return {"other": "multiphase", "qs": list(range(w)),
+                "phases": [rat(Fraction(rng.randrange(-8, 9), 4)) for _ in range(2 ** w)]}
+    if rng.random() < 0.5:
+        name = rng.choice(["RX", "RY", "RZ", "PHASE"])
+        g = {"gate": name, "sym": [rng.choice(SYM_TOKENS[:10]) if symbolic and rng.random() < 0.5 else _num_tok(rng, big)]}
+    else:
+        g = {"gate": rng.choice(cands), "sym": []}
+    if n > circ.BUILTIN_QUBITS[g["gate"]] and rng.random() < 0.15:
+        g = {"controlled": g, "k": 1}
+    return {"g": g, "qs": rng.sample(range(n), circ.spec_num_qubits(g))}
+
+
+def _typed_u3(rng, n, fam, prev_qs, kmax=3):
+    t = list(rng.choice(fam))
+    k = rng.choice([0, 0, 1, 1, 2, 3])
+    k = min(k, n - 1, kmax)
+    if k and rng.random() < 0.5:
+        t = _cancelled(t)
+    g = {"gate": "U3", "sym": t}
+    if rng.random() < 0.08:
+        g = {"dagger": g}
+    if k:
+        g = {"controlled": g, "k": k}
+    same = [q for q in prev_qs if len(q) == k + 1]
+    if same and rng.random() < 0.45:      # the same qubit set as an earlier operation, in another (or the same) order
+        qs = list(rng.choice(same))
+        rng.shuffle(qs)
+    else:
+        qs = rng.sample(range(n), k + 1)
+    prev_qs.append(qs)
+    return {"g": g, "qs": qs}
+
+
+def _twin(rng, o, fam, n):
+    """the operation `o` (a plain or controlled U3 spec) with ONE component changed: the parameter triple (another
+    member of the family), the order of its qubits, the qubits (same count), or the number of controls"""
+    inner = o["g"].get("controlled") or o["g"]
+    k = o["g"]["k"] if "controlled" in o["g"] else 0
+    t, qs = list(inner["sym"]), list(o["qs"])
+    how = rng.choice(["triple", "triple", "order", "qubits", "controls"])
+    if how == "triple":
+        t = list(rng.choice(fam))
+    elif how == "order" and len(qs) > 1:
+        qs = qs[1:] + qs[:1] if rng.random() < 0.5 else qs[::-1]
+    elif how == "qubits":
+        qs = rng.sample(range(n), len(qs))
+    elif how == "controls":
+        k = k + 1 if (k + 1 < n and (k == 0 or rng.random() < 0.5)) else max(k - 1, 0)
+        qs = (qs + [q for q in range(n) if q not in qs])[:k + 1]
+    g = {"gate": "U3", "sym": t}
+    return {"g": {"controlled": g, "k": k} if k else g, "qs": qs}
+
+
+def _exotic_case(rng, flavour):
+    symbolic = flavour == "symbolic"
+    fam = _family(rng, symbolic, big=flavour != "long")
+    c = {"kind": "exotic", "n": None, "rules": rng.choice([1, 1, 1, 1, 2, 3, 0]), "flavour": flavour}
+    prev = []
+    if flavour == "long":
+        n = rng.choice([2, 3])
+        length = rng.choice([64, 65, 65, 66, 100, 127, 128, 129, 129, 130, 140])
+        pool = [_typed_u3(rng, n, fam, prev, kmax=1) for _ in range(5)] + [_typed_other(rng, n, big=False) for _ in range(4)]
+        c["ops"] = [dict(rng.choice(pool)) for _ in range(length)]
+        c["rules"] = rng.choice([1, 1, 2])
+        c["n"] = rng.choice([None, n, n + 1])
+    elif flavour == "wide":
+        n = rng.choice([10, 11, 12])
+        pairs = [([1, 10], [11, 0]), ([1, 11], [11, 1]), ([10, 11], [1, 0, 11]), ([2, 10], [10, 2]), ([1, 0], [10]),
+                 ([0, 1, 2, 3, 10], [10, 3, 2, 1, 0]), ([11, 10, 9, 8, 7, 6], [6, 7, 8, 9, 10, 11])]
+        ops = []
+        for qa, qb in rng.sample(pairs, 2):
+            t = rng.choice(fam)
+            t = _cancelled(t) if rng.random() < 0.5 else list(t)
+            for qs in (qa, qb):
+                tt = list(t)
+                g = {"gate": "U3", "sym": tt}
+                if max(qs) < n:
+                    ops.append({"g": {"controlled": g, "k": len(qs) - 1} if len(qs) > 1 else g, "qs": list(qs)})
+        for _ in range(rng.randrange(1, 4)):
+            ops.insert(rng.randrange(len(ops) + 1), _typed_other(rng, n))
+        c["ops"], c["n"] = ops, n
+    else:
+        n = rng.choice([2, 3, 3, 4])
+        ops = []
+        for _ in range(rng.randrange(2, 7)):
+            ops.append(_typed_u3(rng, n, fam, prev) if rng.random() < 0.7 else _typed_other(rng, n, symbolic, not symbolic))
+        # twins: a copy of one U3 operation that differs from it in exactly ONE component
+        u3s = [o for o in ops if "g" in o and _is_u3(o["g"])]
+        for _ in range(rng.randrange(0, 3) if u3s else 0):
+            ops.insert(rng.randrange(len(ops) + 1), _twin(rng, rng.choice(u3s), fam, n))
+        if rng.random() < 0.3:      # rules that feed each other: RX -> U3 (fixture), U3 -> RZ RY RZ (bundled), SWAP -> 3 CNOT
+            c["rule_list"] = (list(rng.choice([["u3", "rx", "u3"], ["rx", "u3"], ["u3", "rx"], ["u3", "u3", "rx"], ["rx", "u3", "rx"],
+                                               ["swap", "u3", "rx", "u3"], ["rx", "swap", "rx"]])) if rng.random() < 0.5 else
+                              [rng.choice(["u3", "u3", "rx", "rx", "swap"]) for _ in range(rng.randrange(1, 5))])
+            c["rules"] = len(c["rule_list"])
+            for _ in range(rng.randrange(1, 3)):
+                g = {"gate": "RX", "sym": [rng.choice(SYM_TOKENS[:10]) if symbolic and rng.random() < 0.5 else _num_tok(rng)]}
+                ops.insert(rng.randrange(len(ops) + 1), {"g": g, "qs": [rng.randrange(n)]})
+            if n >= 2 and rng.random() < 0.5:
+                ops.insert(rng.randrange(len(ops) + 1), {"g": {"gate": "SWAP", "sym": []}, "qs": rng.sample(range(n), 2)})
+        used = max(q for o in ops for q in o["qs"]) + 1
+        c["ops"], c["n"] = ops, rng.choice([None, None, used, min(used + 1, 5)])
+    if symbolic:
+        c["bind"] = _sym_bind(rng)
+    return _canon_case(c)
+
+
+def _history_case(rng):
+    symbolic = rng.random() < 0.3
+    fam = _family(rng, symbolic)
+    n = rng.choice([2, 3, 3, 4])
+    prev = []
+
+    def u3():
+        return _typed_u3(rng, n, fam, prev, kmax=2)
+
+    def anyop():
+        return u3() if rng.random() < 0.6 else _typed_other(rng, n, symbolic, not symbolic)
+
+    base = [anyop() for _ in range(rng.randrange(1, 6))]
+    steps = [{"new": base}]
+    count = 1          # circuits so far
+    news = [0]         # indices of circuits made by "new"
+    results = []       # indices of circuits that are results of a decomposition
+    last_new = base
+    for _ in range(rng.randrange(3, 8)):
+        pat = rng.choice(["dec", "sibling", "mutate_result", "again", "set", "delins", "plus"])
+        k = rng.choice([1, 1, 1, 2, 0])
+        if pat in ("dec", "again"):
+            steps.append({"dec": rng.choice(news + results), "rules": k})
+            results.append(count)
+            count += 1
+        elif pat == "sibling":
+            sib = [dict(o) for o in last_new]
+            if sib:
+                i = rng.randrange(len(sib))
+                how = rng.choice(["order", "replace", "drop", "add", "twin", "twin"])
+                if how == "twin" and "g" in sib[i] and _is_u3(sib[i]["g"]):
+                    sib[i] = _twin(rng, sib[i], fam, n)
+                elif how == "order":
+                    qs = list(sib[i]["qs"])
+                    rng.shuffle(qs)
+                    sib[i] = dict(sib[i], qs=qs)
+                elif how == "replace":
+                    sib[i] = anyop()
+                elif how == "drop":
+                    del sib[i]
+                else:
+                    sib.insert(i, u3())
+            steps.append({"new": sib})
+            steps.append({"dec": count, "rules": k})
+            news.append(count)
+            results.append(count + 1)
+            count += 2
+            last_new = sib
+        elif pat == "mutate_result" and results:
+            i = rng.choice(results)
+            steps.append({"on": i, "ins": rng.randrange(0, 8), "op": u3()})
+            steps.append({"dec": i, "rules": max(k, 1)})
+            results.append(count)
+            count += 1
+        elif pat == "set":
+            i = rng.choice(news)
+            steps.append({"on": i, "set": rng.randrange(0, 8), "op": anyop()})
+            steps.append({"dec": i, "rules": max(k, 1)})
+            results.append(count)
+            count += 1
+        elif pat == "delins":
+            i = rng.choice(news)
+            steps.append({"on": i, "del": rng.randrange(0, 8)})
+            steps.append({"on": i, "ins": rng.randrange(0, 8), "op": anyop()})
+            steps.append({"dec": i, "rules": max(k, 1)})
+            results.append(count)
+            count += 1
+        elif pat == "plus":
+            i = rng.choice(news + results)
+            steps.append({"plus": i, "op": u3()})
+            steps.append({"dec": count, "rules": max(k, 1)})
+            results.append(count + 1)
+            count += 2
+    c = {"kind": "history", "n": n, "rule_objects": rng.choice(["long", "fresh"]), "steps": steps}
+    if symbolic:
+        c["bind"] = _sym_bind(rng)
+    return _canon_case(c)
+
+
 TOY_PREDS = [["mod", 2, 0], ["mod", 3, 1], ["gt", 2], ["gt", 5], ["eq", 1], ["eq", 4], ["always"], ["never"]]
 TOY_PRODS = [["split"], ["dec"], ["drop"], ["dup"], ["inc", 1], ["inc", 3], ["const", [7, 0]], ["const", []]]
 
@@ -365,17 +851,37 @@ def generate(rng, tier):
         cases.append({"kind": "rule", "op": op})
     for i in range(500 if big else 90):
         ops = [rng.randrange(-2, 12) for _ in range(rng.randrange(0, 6))]
-        rules = []
-        for _ in range(rng.choice([0, 1, 2, 2, 3, 4])):
-            pred = rng.choice(TOY_PREDS)
-            prod = rng.choice(TOY_PRODS)
-            if rng.random() < 0.04:
-                pred = rng.choice([["raise"], ["mod", 0, 0]])
-            if rng.random() < 0.04:
-                prod = ["raise"]
-            rules.append({"pred": pred, "prod": prod, "iter": rng.random() < 0.3})
-        cases.append({"kind": "chain", "ops": ops, "rules": rules})
+        cases.append(_chain_case(rng, ops, rng.choice([0, 1, 2, 2, 3, 4])))
+    for i in range(40 if big else 8):     # 60-140 operations (block-wise implementations), few rules
+        length = rng.choice([60, 64, 65, 65, 66, 100, 128, 129, 129, 130, 140])
+        cases.append(_chain_case(rng, [rng.randrange(-2, 12) for _ in range(length)], rng.choice([1, 2, 2, 3]), raising=False))
+    for i in range(200 if big else 44):
+        cases.append(_exotic_case(rng, rng.choice(["numeric", "numeric", "symbolic"])))
+    for i in range(20 if big else 5):
+        cases.append(_exotic_case(rng, "long"))
+    for i in range(24 if big else 5):
+        cases.append(_exotic_case(rng, "wide"))
+    for i in range(120 if big else 30):
+        cases.append(_history_case(rng))
     return cases
+
+
+def _chain_case(rng, ops, n_rules, raising=True):
+    rules = []
+    for _ in range(n_rules):
+        if rules and rng.random() < 0.2:     # the very same rule OBJECT stands in the list again
+            rules.append({"same": rng.choice([j for j, r in enumerate(rules) if "same" not in r])})
+            continue
+        pred = rng.choice(TOY_PREDS)
+        prod = rng.choice(TOY_PRODS)
+        if raising and rng.random() < 0.04:
+            pred = rng.choice([["raise"], ["mod", 0, 0]])
+        if raising and rng.random() < 0.04:
+            prod = ["raise"]
+        rules.append({"pred": pred, "prod": prod, "ret": rng.choice(["list", "list", "tuple", "iter", "gen"]),
+                      "shared": rng.random() < 0.3})
+    return {"kind": "chain", "ops": ops, "rules": rules, "ops_as": rng.choice(["list", "list", "tuple", "gen"]),
+            "rules_as": rng.choice(["list", "tuple"]), "eq": rng.random() < 0.3}
 
 
 def nontrivial(c):
@@ -384,8 +890,18 @@ def nontrivial(c):
             return False
         m = [bool("g" in o and _is_u3(o["g"])) for o in c["ops"]]
         return any(m) and not all(m)
+    if c["kind"] == "exotic":
+        m = [bool("g" in o and _is_u3(o["g"])) for o in c["ops"]]
+        return c["rules"] >= 1 and len(c["ops"]) >= 2 and any(m) and not all(m)
+    if c["kind"] == "history":
+        return sum(1 for st in c["steps"] if "dec" in st and st["rules"] >= 1) >= 2
     if c["kind"] == "chain":
-        return len(c["rules"]) >= 2 and any(_toy_pred(r["pred"], x) is True for r in c["rules"] for x in c["ops"])
+        def matches(r, x):
+            try:
+                return _toy_pred(r["pred"], x) is True
+            except (ValueError, ZeroDivisionError):
+                return False
+        return len(c["rules"]) >= 2 and any(matches(r, x) for r in _resolved_rules(c) for x in c["ops"])
     if c["kind"] == "rule":
         return "g" in c["op"] and _is_u3(c["op"]["g"]) is not None
     return False
@@ -423,15 +939,280 @@ def _toy_prod(p, n):
 
 
 class _ToyRule:
+    """spec: pred, prod; optional: ret = list | tuple | iter | gen (what production returns; "iter": true = iter),
+    shared = true (the rule keeps ONE list per operation and hands that very object out on every call)"""
+
     def __init__(self, spec):
         self.spec = spec
+        self.store = {}
 
     def predicate(self, n):
         return _toy_pred(self.spec["pred"], n)
 
     def production(self, n):
-        out = _toy_prod(self.spec["prod"], n)
-        return iter(out) if self.spec.get("iter") else out
+        if self.spec.get("shared"):
+            if n not in self.store:
+                self.store[n] = _toy_prod(self.spec["prod"], n)
+            out = self.store[n]
+        else:
+            out = _toy_prod(self.spec["prod"], n)
+        ret = self.spec.get("ret") or ("iter" if self.spec.get("iter") else "list")
+        if ret == "tuple":
+            return tuple(out)
+        if ret == "iter":
+            return iter(out)
+        if ret == "gen":
+            return (x for x in out)
+        return out
+
+
+class _ToyRuleEq(_ToyRule):
+    """rules that compare (and hash) equal when they do the same thing - still two entries of the rule list"""
+
+    def _key(self):
+        return common.canon([self.spec["pred"], self.spec["prod"]])
+
+    def __eq__(self, other):
+        return isinstance(other, _ToyRuleEq) and self._key() == other._key()
+
+    def __hash__(self):
+        return hash(self._key())
+
+
+def _resolved_rules(c):
+    """rule specs with {"same": j} (the OBJECT of rule j stands here again) replaced by the spec of rule j"""
+    out = []
+    for r in c["rules"]:
+        out.append(out[r["same"]] if "same" in r else r)
+    return out
+
+
+def _toy_objects(c):
+    cls = _ToyRuleEq if c.get("eq") else _ToyRule
+    objs = []
+    for r in c["rules"]:
+        objs.append(objs[r["same"]] if "same" in r else cls(r))
+    return objs
+
+
+def _as(kind, seq):
+    if kind == "tuple":
+        return tuple(seq)
+    if kind == "gen":
+        return (x for x in seq)
+    return list(seq)
+
+
+# ------------------------------------------------------------------ own simulation (exotic / history / rule / variants)
+TOL_TIGHT = 1e-10      # actions computed by _simulate from the library's gate matrices (double precision, <= 150 gates)
+_MAT_CACHE = {}
+_LONG = []             # U3GateToRotation objects that live as long as the process: shared by ALL cases
+
+
+def _long_rules(k):
+    _, _, dec, _ = _mods()
+    while len(_LONG) < k:
+        _LONG.append(dec.U3GateToRotation())
+    return _LONG[:k]
+
+
+class _RxToU3:
+    """fixture rule (mirrored in lean/OQ/Driver/C18.lean): RX(theta) -> U3(theta, -pi/2, pi/2), the plain gate only"""
+
+    def __init__(self, tab):
+        self.tab = tab
+
+    def predicate(self, op):
+        _, _gates, _, _ = _mods()
+        return isinstance(op, _gates.GateOperation) and op.gate.name == "RX"
+
+    def production(self, op):
+        oqc, _, _, _ = _mods()
+        import sympy
+        (theta,) = op.params
+        return [oqc.U3(theta, self.tab.add(sympy.sympify("-pi/2"), "-pi/2"), self.tab.add(sympy.sympify("pi/2"), "pi/2"))(
+            *op.qubit_indices)]
+
+
+class _SwapToCnots:
+    """fixture rule (mirrored in the driver): SWAP(a, b) -> CNOT(a, b), CNOT(b, a), CNOT(a, b)"""
+
+    def predicate(self, op):
+        _, _gates, _, _ = _mods()
+        return isinstance(op, _gates.GateOperation) and op.gate.name == "SWAP"
+
+    def production(self, op):
+        oqc, _, _, _ = _mods()
+        a, b = op.qubit_indices
+        return (oqc.CNOT(a, b), oqc.CNOT(b, a), oqc.CNOT(a, b))
+
+
+def _rule_names(c):
+    return list(c.get("rule_list") or ["u3"] * c["rules"])
+
+
+def _make_rules(names, tab, long=False):
+    _, _, dec, _ = _mods()
+    n_u3 = names.count("u3")
+    pool = list(_long_rules(n_u3)) if long else [dec.U3GateToRotation() for _ in range(n_u3)]
+    return [pool.pop(0) if nm == "u3" else (_RxToU3(tab) if nm == "rx" else _SwapToCnots()) for nm in names]
+
+
+def _kind_m(mop):
+    """what a rule of the lists used here can match: 'u3' (plain or controlled U3), 'rx' / 'swap' (the plain gates)"""
+    if _u3_kind_m(mop):
+        return "u3"
+    g = mop.get("g")
+    if isinstance(g, dict) and g.get("gate") == "RX":
+        return "rx"
+    if isinstance(g, dict) and g.get("gate") == "SWAP":
+        return "swap"
+    return None
+
+
+def _u3_kind_m(mop):
+    """model-form operation -> 'plain' / 'controlled' (what the bundled rule is meant to replace) / None"""
+    g = mop.get("g")
+    if not isinstance(g, dict):
+        return None
+    if g.get("gate") == "U3":
+        return "plain"
+    w = g.get("controlled")
+    if isinstance(w, dict) and w.get("gate") == "U3":
+        return "controlled"
+    return None
+
+
+def _gate_matrix(op, mop, bind, bkey):
+    """numpy matrix of the (bound) gate of a REAL operation, taken from the library (gate.matrix); remembered per
+    canonical gate spec + binding (the matrix of a gate is a function of its spec: properties C01 / C02 / C07)"""
+    key = common.canon(mop["g"]) + "|" + bkey
+    cacheable = "unknown" not in key
+    if cacheable and key in _MAT_CACHE:
+        return _MAT_CACHE[key]
+    g = op.gate
+    if bind and g.free_symbols:
+        g = g.bind(bind)
+    m = circ.impl_matrix_to_numpy(g.matrix)
+    if cacheable:
+        if len(_MAT_CACHE) > 20000:
+            _MAT_CACHE.clear()
+        _MAT_CACHE[key] = m
+    return m
+
+
+def _simulate(pairs, n, cols):
+    """apply (matrix, qubits) pairs in order to the columns `cols` (2^n x K); qubit 0 is the most significant bit,
+    the first qubit of an operation the most significant bit of its matrix index (circ.embed_reference convention)"""
+    import numpy as np
+    K = cols.shape[1]
+    psi = cols.reshape((2,) * n + (K,))
+    for G, qs in pairs:
+        k = len(qs)
+        Gt = np.asarray(G).reshape((2,) * (2 * k))
+        psi = np.tensordot(Gt, psi, axes=(list(range(k, 2 * k)), list(qs)))
+        psi = np.moveaxis(psi, list(range(k)), list(qs))
+    return psi.reshape(2 ** n, K)
+
+
+def _columns(n, salt):
+    """the states the actions are compared on: the whole basis up to 6 qubits, else 3 seeded random states"""
+    import numpy as np
+    if n <= 6:
+        return np.eye(2 ** n, dtype=complex)
+    import hashlib
+    r = np.random.RandomState(int(hashlib.sha256(common.canon(salt).encode()).hexdigest()[:8], 16))
+    a = r.normal(size=(2 ** n, 3)) + 1j * r.normal(size=(2 ** n, 3))
+    return a / np.linalg.norm(a, axis=0)
+
+
+def _phase_dist(U, V):
+    """distance between U and the best p*V, p fixed on the largest entry of V; includes ||p| - 1|"""
+    import numpy as np
+    if U.shape != V.shape:
+        return float("inf")
+    idx = np.unravel_index(np.argmax(np.abs(V)), V.shape)
+    if abs(V[idx]) < 1e-12:
+        return float(np.max(np.abs(U)))
+    p = U[idx] / V[idx]
+    return float(max(abs(abs(p) - 1), np.max(np.abs(U - p * V)) / _scale(U)))
+
+
+def _segmented_dists(in_ops, in_mops, out_ops, out_mops, n, tab, bind, salt):
+    """circuits holding non-gate operations (reset, multi-phase): no rule applies to those, so they must come back
+    unchanged and in order ("anchors"), and between two anchors the gate operations must act alike, run by run
+    (a scalar phase commutes with every operation, so one phase per run is one global phase).
+    -> {"anchors": False} | {"exact": worst run, "known": worst run when the documented deviation is allowed | None}"""
+    def runs(objs, mops):
+        out, cur, anchors = [], ([], []), []
+        for o, m in zip(objs, mops):
+            if "g" in m:
+                cur[0].append(o)
+                cur[1].append(m)
+            else:
+                anchors.append(m)
+                out.append(cur)
+                cur = ([], [])
+        out.append(cur)
+        return out, anchors
+
+    rin, ain = runs(in_ops, in_mops)
+    rout, aout = runs(out_ops, out_mops)
+    if ain != aout:
+        return {"anchors": False, "exact": float("inf"), "known": None}
+    exact, known, any_known = 0.0, 0.0, False
+    for (io, im), (oo, om) in zip(rin, rout):
+        if not io and not oo:
+            continue
+        d = _action_dists(io, im, oo, om, n, tab, bind, [salt, len(im)])
+        if d is None:
+            return None
+        exact = max(exact, d["exact"])
+        known = max(known, d["known"] if d["known"] is not None else d["exact"])
+        any_known = any_known or d["known"] is not None
+    return {"exact": exact, "known": known if any_known else None}
+
+
+def _action_dists(in_ops, in_mops, out_ops, out_mops, n, tab, bind, salt):
+    """in_ops / out_ops: REAL gate operations (before / after decomposition), *_mops their model-form specs.
+    -> {"exact": distance up to one global phase between the two actions,
+        "known": the same with every controlled U3 of the input replaced by its documented deviation F9 (controlled
+                 block times e^{-i(phi+lambda)/2}); None when no controlled U3 with a non-trivial phase is present}"""
+    import cmath
+    import numpy as np
+    if any("g" not in o for o in list(in_mops) + list(out_mops)):
+        return _segmented_dists(in_ops, in_mops, out_ops, out_mops, n, tab, bind, salt)
+    for o in list(in_mops) + list(out_mops):
+        if any(q >= n or q < 0 for q in o["qs"]):
+            return None
+    bkey = common.canon(sorted((str(k_), v) for k_, v in (bind or {}).items()))
+    cols = _columns(n, salt)
+    pin, pknown, nknown = [], [], 0
+    for op, mop in zip(in_ops, in_mops):
+        G = _gate_matrix(op, mop, bind, bkey)
+        pin.append((G, mop["qs"]))
+        Gk = G
+        if _u3_kind_m(mop) == "controlled" and len(mop["g"]["controlled"]["params"]) == 3:
+            try:
+                toks = mop["g"]["controlled"]["params"]
+                if isinstance(toks[1], list):      # half-angle points of the numeric kinds
+                    (pc, ps), (lc, ls) = [[float(unrat(x)) for x in t] for t in toks[1:]]
+                    q = complex(pc, ps) * complex(lc, ls)
+                else:
+                    q = cmath.exp(0.5j * (_tok_value(toks[1], tab, bind) + _tok_value(toks[2], tab, bind)))
+            except Exception:
+                q = 1.0
+            if abs(q - 1) > 1e-13:
+                Gk = np.array(G, dtype=complex)
+                Gk[-2:, -2:] = Gk[-2:, -2:] * np.conj(q)
+                nknown += 1
+        pknown.append((Gk, mop["qs"]))
+    pout = [(_gate_matrix(op, mop, bind, bkey), mop["qs"]) for op, mop in zip(out_ops, out_mops)]
+    V = _simulate(pout, n, cols)
+    d = {"exact": _phase_dist(_simulate(pin, n, cols), V), "known": None}
+    if nknown:
+        d["known"] = _phase_dist(_simulate(pknown, n, cols), V)
+    return d
 
 
 # ------------------------------------------------------------------ implementation
@@ -451,30 +1232,203 @@ def _err(e):
                     ZeroDivisionError: "err:zerodiv"}.get(type(e), "err:" + type(e).__name__), "msg": str(e)[:120]}
 
 
+DEFAULT_BIND = {"a": "7/10", "b": "-13/10", "c": "21/10", "k": "3/10"}
+CALL_ERRORS = (AttributeError, ValueError, TypeError)
+
+
+def _run_chain(c):
+    _, _, _, gen = _mods()
+    objs = _toy_objects(c)
+
+    def call(f):
+        try:
+            return [int(x) for x in f()]
+        except (ValueError, ZeroDivisionError) as e:
+            return _err(e)
+
+    ops_arg = _as(c.get("ops_as"), c["ops"])
+    rules_arg = _as(c.get("rules_as") if c.get("rules_as") != "gen" else "list", objs)
+    first = call(lambda: gen.decompose_operations(ops_arg, rules_arg))
+    out = dict(first) if isinstance(first, dict) else {"res": first}
+    out["ops_after_ok"] = (not isinstance(ops_arg, (list, tuple))) or list(ops_arg) == list(c["ops"])
+    out["rules_after_ok"] = len(rules_arg) == len(objs) and all(a is b for a, b in zip(rules_arg, objs))
+    # the same rule objects again, and operation by operation
+    out["res2"] = call(lambda: gen.decompose_operations(_as(c.get("ops_as"), c["ops"]), rules_arg))
+    out["per_op"] = call(lambda: [y for x in c["ops"] for y in gen.decompose_operation(x, rules_arg)])
+    return out
+
+
+def _run_rule(c):
+    oqc, _gates, dec, gen = _mods()
+    tab, customs = _Table(), {}
+    op = _op(c["op"], tab, customs)
+    rule = dec.U3GateToRotation()
+    out = {}
+    try:
+        p = rule.predicate(op)
+        out["predicate"] = bool(p) if isinstance(p, (bool, int)) else repr(p)
+    except (AttributeError, ValueError) as e:
+        out["predicate"] = _err(e)["err"]
+    produced = {}
+    for name, r in (("production", rule), ("production2", rule), ("production_long", _long_rules(1)[0])):
+        try:
+            produced[name] = list(r.production(op))
+            out[name] = [_op_spec(o, tab, customs) for o in produced[name]]
+        except Exception as e:    # judged by the oracle where the rule applies; out of domain elsewhere
+            out[name] = _err(e)["err"]
+    # action of what the rule produced (each of the three calls), for a well-formed (controlled) U3
+    out["dists"] = None
+    if "g" in c["op"] and _is_u3(c["op"]["g"]) and len(_params(c["op"]["g"])) == 3:
+        bind = _bindmap(dict(c, bind=c.get("bind") or DEFAULT_BIND), tab)
+        mop = _model_op(c["op"])
+        n = max(c["op"]["qs"]) + 1
+        out["dists"] = {}
+        for name, objs in produced.items():
+            if all(isinstance(o, _gates.GateOperation) for o in objs):
+                out["dists"][name] = _action_dists([op], [mop], objs, out[name], n, tab, bind, c["op"])
+    return out
+
+
+def _variant_record(name, ops_objs, main_specs, in_ops, in_mops, n, tab, customs, bind, salt):
+    specs = [_op_spec(o, tab, customs) for o in ops_objs]
+    rec = {"name": name, "same": specs == main_specs, "ops": None, "dist": None}
+    if not rec["same"]:
+        rec["ops"] = specs
+        rec["dist"] = _action_dists(in_ops, in_mops, list(ops_objs), specs, n, tab, bind, salt)
+    return rec
+
+
+def _run_exotic(c):
+    """typed-parameter circuits: every call path on the same input, actions by the harness's own simulation"""
+    oqc, _gates, dec, gen = _mods()
+    tab, customs = _Table(), {}
+    ops = [_op(o, tab, customs) for o in c["ops"]]
+    in_mops = [_model_op(o) for o in c["ops"]]
+    circuit = oqc.Circuit(ops, n_qubits=c.get("n"))
+    names = _rule_names(c)
+    rules = _make_rules(names, tab)
+    bind = _bindmap(c, tab)
+    n = int(circuit.n_qubits)
+    out = {"n_in": n}
+    try:
+        d = dec.decompose_orquestra_circuit(circuit, rules)
+    except CALL_ERRORS as e:
+        out.update(_err(e))
+        return out
+    main_objs = list(d.operations)
+    out["ops"] = [_op_spec(o, tab, customs) for o in main_objs]
+    out["n"] = int(d.n_qubits)
+    out["eq_input"] = bool(d == circuit)
+    out["same_ops_objects"] = len(main_objs) == len(ops) and all(a is b or a == b for a, b in zip(main_objs, ops))
+    salt = [c["ops"], c.get("n")]      # (runs of gate operations between non-gate operations are compared run by run)
+    out["dist"] = _action_dists(ops, in_mops, main_objs, out["ops"], n, tab, bind, salt) if ops else None
+    out["single"] = []
+    if "u3" in names and len(ops) <= 12:
+        one = [r for r, nm in zip(rules, names) if nm == "u3"][:1]
+        for i, (o, mop) in enumerate(zip(ops, in_mops)):
+            if _u3_kind_m(mop):
+                dd = list(dec.decompose_orquestra_circuit(oqc.Circuit([o], n_qubits=n), one).operations)
+                out["single"].append({"i": i, "dist": _action_dists([o], [mop], dd, [_op_spec(x, tab, customs) for x in dd],
+                                                                    n, tab, bind, salt)})
+    # ---- the other ways of making the same call (each judged like the main one)
+    variants = []
+
+    def variant(name, f):
+        try:
+            res = list(f())
+        except CALL_ERRORS as e:
+            variants.append({"name": name, "err": _err(e)["err"], "msg": str(e)[:100]})
+            return
+        variants.append(_variant_record(name, res, out["ops"], ops, in_mops, n, tab, customs, bind, salt))
+
+    def one_at_a_time():
+        cur = circuit
+        for r in rules:
+            cur = dec.decompose_orquestra_circuit(cur, [r])
+        return cur.operations
+
+    variant("operations_fn", lambda: dec.decompose_operations(list(circuit.operations), rules))
+    variant("one_rule_at_a_time", one_at_a_time)
+    variant("long_lived_rules", lambda: dec.decompose_orquestra_circuit(circuit, _make_rules(names, tab, long=True)).operations)
+    variant("rules_as_tuple", lambda: dec.decompose_orquestra_circuit(circuit, tuple(rules)).operations)
+    variant("operation_by_operation", lambda: [x for o in ops for x in gen.decompose_operation(o, rules)])
+    variant("generator_input", lambda: dec.decompose_operations((o for o in ops), rules))
+    out["input_intact"] = (len(circuit.operations) == len(ops) and all(a is b for a, b in zip(circuit.operations, ops))
+                           and int(circuit.n_qubits) == n)
+    # the caller changes the first result, then asks again (not when the result IS the input object: then the
+    # caller has changed the input, and the main call says nothing about the new one)
+    out["result_is_input"] = d is circuit or d.operations is circuit.operations
+    if not out["result_is_input"] and isinstance(d.operations, list):
+        d.operations.reverse()
+        d.operations.append(oqc.X(0))
+        # ... with a call that differs in ONE argument (no rules) in between
+        out["no_rules_between"] = [_op_spec(o, tab, customs) for o in dec.decompose_orquestra_circuit(circuit, []).operations]
+        variant("again_after_result_modified", lambda: dec.decompose_orquestra_circuit(circuit, rules).operations)
+    out["variants"] = variants
+    return out
+
+
+def _run_history(c):
+    """a script on long-lived circuits and rule objects (see the module docstring)"""
+    oqc, _gates, dec, gen = _mods()
+    tab, customs = _Table(), {}
+    bind = _bindmap(c, tab)
+    n = c["n"]
+    rules = _long_rules(3) if c.get("rule_objects") == "long" else [dec.U3GateToRotation() for _ in range(3)]
+    circuits, recs = [], []
+    for si, st in enumerate(c["steps"]):
+        if "new" in st:
+            circuits.append(oqc.Circuit([_op(o, tab, customs) for o in st["new"]], n_qubits=n))
+        elif "dec" in st:
+            src = circuits[st["dec"]]
+            before = list(src.operations)
+            rec = {"step": si, "rules": st["rules"], "n_in": int(src.n_qubits),
+                   "in": [_op_spec(o, tab, customs) for o in before]}
+            try:
+                d = dec.decompose_orquestra_circuit(src, rules[:st["rules"]])
+            except CALL_ERRORS as e:
+                rec.update(_err(e))
+                recs.append(rec)
+                circuits.append(oqc.Circuit(before, n_qubits=n))
+                continue
+            after = list(d.operations)
+            rec["out"] = [_op_spec(o, tab, customs) for o in after]
+            rec["n_out"] = int(d.n_qubits)
+            rec["in_after"] = [_op_spec(o, tab, customs) for o in src.operations]
+            rec["result_is_input"] = d is src
+            rec["dist"] = _action_dists(before, rec["in"], after, rec["out"], max(n, rec["n_out"]), tab, bind, [si, rec["in"]])
+            recs.append(rec)
+            circuits.append(d)
+        elif "plus" in st:
+            circuits.append(circuits[st["plus"]] + _op(st["op"], tab, customs))
+        else:
+            target = circuits[st["on"]].operations      # the live list
+            rebuilt = not isinstance(target, list)      # (were it not a list: a new circuit with the changed operations)
+            if rebuilt:
+                target = list(target)
+            if "ins" in st:
+                target.insert(st["ins"] % (len(target) + 1), _op(st["op"], tab, customs))
+            elif "set" in st and target:
+                target[st["set"] % len(target)] = _op(st["op"], tab, customs)
+            elif "del" in st and target:
+                del target[st["del"] % len(target)]
+            if rebuilt:
+                circuits[st["on"]] = oqc.Circuit(target, n_qubits=n)
+    return {"recs": recs}
+
+
 def run_impl(c):
     oqc, _gates, dec, gen = _mods()
     k = c["kind"]
     if k == "chain":
-        rules = [_ToyRule(r) for r in c["rules"]]
-        try:
-            return {"res": [int(x) for x in gen.decompose_operations(list(c["ops"]), rules)]}
-        except (ValueError, ZeroDivisionError) as e:
-            return _err(e)
-    tab, customs = _Table(), {}
+        return _run_chain(c)
     if k == "rule":
-        op = _op(c["op"], tab, customs)
-        rule = dec.U3GateToRotation()
-        out = {}
-        try:
-            p = rule.predicate(op)
-            out["predicate"] = bool(p) if isinstance(p, (bool, int)) else repr(p)
-        except (AttributeError, ValueError) as e:
-            out["predicate"] = _err(e)["err"]
-        try:
-            out["production"] = [_op_spec(o, tab, customs) for o in rule.production(op)]
-        except (AttributeError, ValueError) as e:
-            out["production"] = _err(e)["err"]
-        return out
+        return _run_rule(c)
+    if k == "exotic":
+        return _run_exotic(c)
+    if k == "history":
+        return _run_history(c)
+    tab, customs = _Table(), {}
     # circuit / symbolic
     ops = [_op(o, tab, customs) for o in c["ops"]]
     circuit = oqc.Circuit(ops, n_qubits=c.get("n"))
@@ -499,10 +1453,13 @@ def run_impl(c):
     # ---- actions (numeric circuits; symbolic ones after binding)
     bind = None
     if k == "symbolic":
-        import sympy
-        bind = {sympy.Symbol(s): float(unrat(v)) for s, v in c["bind"].items()}
+        bind = _bindmap(c, tab)
     only_gates = all(isinstance(o, _gates.GateOperation) for o in ops)
     out["actions"] = None
+    out["seg"] = None
+    if not only_gates and not _malformed(c):
+        out["seg"] = _action_dists(ops, [_model_op(o) for o in c["ops"]], list(d.operations), out["ops"],
+                                   int(circuit.n_qubits), tab, bind, c["ops"])
     if only_gates and ops and not _malformed(c):
         n = int(circuit.n_qubits)
 
@@ -529,12 +1486,16 @@ def run_impl(c):
 def requests(c, out):
     k = c["kind"]
     if k == "chain":
-        return [("chain", {"ops": c["ops"], "rules": [{"pred": r["pred"], "prod": r["prod"]} for r in c["rules"]]})]
+        return [("chain", {"ops": c["ops"], "rules": [{"pred": r["pred"], "prod": r["prod"]} for r in _resolved_rules(c)]})]
     if k == "rule":
         return [("rule", {"op": _model_op(c["op"])})]
+    if k == "history":
+        # every decomposition of the script, on the operations its input held at the moment of the call
+        return [("decompose", {"ops": r["in"], "n": r["n_in"], "rules": r["rules"]}) for r in out.get("recs", [])]
     mops = [_model_op(o) for o in c["ops"]]
-    reqs = [("decompose", {"ops": mops, "n": _width(c), "rules": c["rules"]}),
-            ("decompose_ops", {"ops": mops, "rules": c["rules"]})]
+    rules = c["rule_list"] if c.get("rule_list") else c["rules"]
+    reqs = [("decompose", {"ops": mops, "n": _width(c), "rules": rules}),
+            ("decompose_ops", {"ops": mops, "rules": rules})]
     if (k == "circuit" and c["ops"] and all("g" in o and _has_matrix_model(o["g"]) for o in c["ops"])
             and not _malformed(c) and _width(c) <= 5):
         reqs.append(("unitary", {"ops": mops, "n": _width(c), "rules": c["rules"]}))
@@ -584,7 +1545,23 @@ def compare(c, out, resp):
         if iq != r["production"]:
             return f"U3GateToRotation.production: impl {out.get('production')} model {r['production']}"
         return None
+    if k == "history":
+        for rec, r in zip(out.get("recs", []), resp):
+            if "err" in rec:
+                if r != "err":
+                    return f"step {rec['step']}: decompose_orquestra_circuit raised {rec['err']}, model returned a circuit"
+                continue
+            if r == "err":
+                return f"step {rec['step']}: model: the call raises; implementation returned a circuit"
+            if rec["out"] != r["ops"]:
+                return f"step {rec['step']}: decomposed operations differ: impl {rec['out']} model {r['ops']}"
+            if rec["n_out"] != r["n"]:
+                return f"step {rec['step']}: width of the decomposed circuit: impl {rec['n_out']} model {r['n']}"
+        return None
     r = resp[0]
+    if k == "exotic" and "err" not in out:
+        fn = [v for v in out.get("variants", []) if v["name"] == "operations_fn"]
+        out = dict(out, ops_fn=(out["ops"] if fn and fn[0].get("same") else (fn[0].get("ops") if fn else None)))
     if "err" in out:
         if r != "err":
             return f"decompose_orquestra_circuit raised {out['err']} ({out.get('msg')}), model returned a circuit"
@@ -629,9 +1606,21 @@ def _subsequence(small, big):
     return all(any(x == y for y in it) for x in small)
 
 
-def _relative_phase_form(U, V, n, qs, k, tol=1e-7):
-    """is U = D·V with D = diag(1 … 1, q … q): q of modulus 1 exactly on the basis states whose control qubits
-    qs[:k] are all 1 – the documented deviation F9"""
+def _expected_q(gspec, c):
+    """e^{i(phi+lambda)/2} of a controlled-U3 gate spec of the case (exact rationals / bound symbols)"""
+    import cmath
+    inner = gspec["controlled"]
+    if "angles" in inner:
+        (pc, ps), (lc, ls) = [[float(unrat(x)) for x in t] for t in inner["angles"][1:]]
+        return complex(pc, ps) * complex(lc, ls)
+    tab = _Table()
+    bind = _bindmap(c, tab)
+    return cmath.exp(0.5j * (_tok_value(inner["sym"][1], tab, bind) + _tok_value(inner["sym"][2], tab, bind)))
+
+
+def _relative_phase_form(U, V, n, qs, k, q_expected, tol=1e-7):
+    """is U = D·V with D = diag(1 … 1, q … q): q = e^{i(phi+lambda)/2} exactly on the basis states whose control
+    qubits qs[:k] are all 1 – the documented deviation F9 (and nothing else)"""
     import numpy as np
     try:
         W = U @ np.linalg.inv(V)
@@ -647,7 +1636,153 @@ def _relative_phase_form(U, V, n, qs, k, tol=1e-7):
     if any(abs(v - 1) > tol for v in off_vals) or not on_vals:
         return False
     q = on_vals[0]
-    return abs(abs(q) - 1) < tol and all(abs(v - q) < tol for v in on_vals)
+    return abs(abs(q) - 1) < tol and all(abs(v - q) < tol for v in on_vals) and abs(q - q_expected) < 10 * tol
+
+
+def _judge(in_mops, out_mops, names, dist, what, tol=TOL_TIGHT):
+    """the property's sentences on ONE decomposition in_mops -> out_mops under the rule list `names` (a number k stands
+    for k copies of the bundled rule).  -> None | (signature, message); KNOWN_SIG only when everything else holds"""
+    names = ["u3"] * names if isinstance(names, int) else list(names)
+    for o in in_mops:
+        if _u3_kind_m(o) and len((o["g"].get("controlled") or o["g"])["params"]) != 3:
+            return None  # malformed U3: out of domain
+    if not names:
+        if out_mops != in_mops:
+            return ("empty-rules-changed", f"{what}: empty rule list, yet the operations changed: {out_mops}")
+        return None
+    unmatched = [o for o in in_mops if _kind_m(o) not in names]
+    if not _subsequence(unmatched, out_mops):
+        return ("unmatched-not-kept", f"{what}: operations no rule applies to are not kept unchanged and in order: {out_mops}")
+    # "rules are applied in the order given to the output of the previous rule": what each pass leaves behind
+    cnt = {"u3": 0, "rx": 0, "swap": 0}
+    for o in in_mops:
+        if _kind_m(o):
+            cnt[_kind_m(o)] += 1
+    for nm in names:
+        if nm == "rx":
+            cnt["u3"] += cnt["rx"]     # every plain RX becomes a U3 - replaced only by a LATER bundled rule
+        cnt[nm] = 0
+    got = {"u3": 0, "rx": 0, "swap": 0}
+    for o in out_mops:
+        if _kind_m(o):
+            got[_kind_m(o)] += 1
+    for kind in ("u3", "rx", "swap"):
+        if got[kind] > cnt[kind]:
+            first = [o for o in out_mops if _kind_m(o) == kind][0]
+            return ("u3-not-replaced" if kind == "u3" else "rule-not-applied",
+                    f"{what}: {'a U3' if kind == 'u3' else kind.upper()} survived the decomposition "
+                    f"({got[kind]} left, rules {names} leave {cnt[kind]}): {first}")
+        if got[kind] < cnt[kind]:
+            return ("chain-order", f"{what}: rules {names} applied one after the other leave {cnt[kind]} {kind.upper()} "
+                                   f"operation(s), the result holds {got[kind]}: {out_mops}")
+    if dist is None:
+        return None
+    if dist.get("anchors") is False:
+        return ("unmatched-not-kept", f"{what}: the non-gate operations are not kept unchanged and in order: {out_mops}")
+    if dist["exact"] <= tol:
+        return None
+    if dist["known"] is not None and dist["known"] <= tol:
+        return (KNOWN_SIG, f"{what}: a controlled U3 is replaced by a sequence that differs by the RELATIVE phase "
+                           f"e^(i(phi+lambda)/2) on the controlled subspace")
+    return ("not-same-action", f"{what}: the decomposed circuit does not act like the original beyond one global phase "
+                               f"(distance {dist['exact']:.3g}" + (f", {dist['known']:.3g} from the documented deviation)"
+                                                                   if dist["known"] is not None else ")"))
+
+
+def _first(results):
+    """first real violation, else the known finding, else None"""
+    known = None
+    for r in results:
+        if r is None:
+            continue
+        if r[0] != KNOWN_SIG:
+            return r
+        known = known or r
+    return known
+
+
+def _oracle_exotic(c, out):
+    if "err" in out:
+        return ("decompose-raises", f"decompose_orquestra_circuit raised {out['err']}: {out.get('msg')}")
+    if out["n"] != out["n_in"]:
+        return ("declared-width-dropped", f"circuit on {out['n_in']} qubits came back on {out['n']}")
+    if not out["input_intact"]:
+        return ("input-modified", "the operations of the input circuit were modified")
+    k = _rule_names(c)
+    in_mops = [_model_op(o) for o in c["ops"]]
+    if not k and not (out["eq_input"] and out["same_ops_objects"]):
+        return ("empty-rules-changed", "empty rule list, yet the returned circuit differs from the input")
+    if out.get("no_rules_between") is not None and out["no_rules_between"] != in_mops:
+        return ("empty-rules-changed", f"empty rule list (asked between two calls with rules), yet the operations changed: "
+                                       f"{out['no_rules_between']}")
+
+    def gen():
+        yield _judge(in_mops, out["ops"], k, out["dist"], "decompose_orquestra_circuit")
+        for sg in out["single"]:
+            r = None
+            d = sg["dist"]
+            if d is not None and d["exact"] > TOL_TIGHT:
+                if d["known"] is not None and d["known"] <= TOL_TIGHT:
+                    r = (KNOWN_SIG, f"operation {sg['i']} {c['ops'][sg['i']]}: relative phase e^(i(phi+lambda)/2)")
+                else:
+                    r = ("u3-not-equivalent", f"operation {sg['i']} {c['ops'][sg['i']]} is replaced by a sequence with a "
+                                              f"different action (distance {d['exact']:.3g})")
+            yield r
+        for v in out["variants"]:
+            if "err" in v:
+                yield ("decompose-raises", f"{v['name']}: raised {v['err']}: {v.get('msg')}")
+            elif not v["same"]:
+                yield _judge(in_mops, v["ops"], k, v["dist"], v["name"])
+
+    return _first(gen())
+
+
+def _oracle_history(c, out):
+    def gen():
+        for r in out["recs"]:
+            what = f"step {r['step']} (decompose circuit with {r['rules']} rule(s))"
+            if "err" in r:
+                yield ("decompose-raises", f"{what}: raised {r['err']}: {r.get('msg')}")
+                continue
+            if r["n_out"] != r["n_in"]:
+                yield ("declared-width-dropped", f"{what}: circuit on {r['n_in']} qubits came back on {r['n_out']}")
+            if r["in_after"] != r["in"]:
+                yield ("input-modified", f"{what}: the operations of the input circuit were modified by the call")
+            yield _judge(r["in"], r["out"], r["rules"], r["dist"], what + f" input {r['in']}")
+
+    return _first(gen())
+
+
+def _oracle_chain(c, out):
+    # "rules are applied in the order given to the output of the previous rule", restated directly
+    rules = _resolved_rules(c)
+    try:
+        cur = list(c["ops"])
+        for r in rules:
+            cur = [y for x in cur for y in (_toy_prod(r["prod"], x) if _toy_pred(r["pred"], x) else [x])]
+        want = cur
+    except (ValueError, ZeroDivisionError):
+        want = None
+    calls = [("decompose_operations", out if "err" in out else out.get("res")),
+             ("decompose_operations (second call, same rule objects)", out.get("res2", want if want is not None else {"err": 1})),
+             ("decompose_operation, operation by operation", out.get("per_op", want if want is not None else {"err": 1}))]
+    for name, got in calls:
+        raised = isinstance(got, dict)
+        if want is None:
+            if not raised:
+                return ("chain-swallows-exception", f"a rule raised but {name} returned {got}")
+            continue
+        if raised:
+            return ("chain-raises", f"{name} raised {got}")
+        if not rules and got != c["ops"]:
+            return ("empty-rules-changed", f"no rules, yet {c['ops']} became {got} ({name})")
+        if got != want:
+            return ("chain-order", f"{name}: rules {rules} on {c['ops']}: got {got}, rule-by-rule passes give {want}")
+    if not out.get("ops_after_ok", True):
+        return ("input-modified", "decompose_operations modified the caller's operation list")
+    if not out.get("rules_after_ok", True):
+        return ("input-modified", "decompose_operations modified the caller's rule list")
+    return None
 
 
 def oracle(c, out):
@@ -655,23 +1790,11 @@ def oracle(c, out):
     if isinstance(out, dict) and "exc" in out:
         return ("unexpected-exception", f"implementation raised {out['exc']}: {out.get('msg')}")
     if k == "chain":
-        # "rules are applied in the order given to the output of the previous rule", restated directly
-        try:
-            cur = list(c["ops"])
-            for r in c["rules"]:
-                cur = [y for x in cur for y in (_toy_prod(r["prod"], x) if _toy_pred(r["pred"], x) else [x])]
-            want = cur
-        except (ValueError, ZeroDivisionError):
-            want = None
-        if want is None:
-            return None if "err" in out else ("chain-swallows-exception", f"a rule raised but decompose_operations returned {out}")
-        if "err" in out:
-            return ("chain-raises", f"decompose_operations raised {out}")
-        if not c["rules"] and out["res"] != c["ops"]:
-            return ("empty-rules-changed", f"no rules, yet {c['ops']} became {out['res']}")
-        if out["res"] != want:
-            return ("chain-order", f"rules {c['rules']} on {c['ops']}: got {out['res']}, rule-by-rule passes give {want}")
-        return None
+        return _oracle_chain(c, out)
+    if k == "exotic":
+        return _oracle_exotic(c, out)
+    if k == "history":
+        return _oracle_history(c, out)
     if k == "rule":
         op = c["op"]
         if "other" in op:
@@ -681,7 +1804,22 @@ def oracle(c, out):
         want = _is_u3(op["g"]) is not None
         if out["predicate"] is not want:
             return ("u3-predicate", f"predicate({op['g']}) = {out['predicate']}, expected {want}")
-        return None
+        if not want or len(_params(op["g"])) != 3:
+            return None
+        # what the rule produces for a well-formed (controlled) U3: asked twice of one rule object, once of the long-lived one
+        res = []
+        for name in ("production", "production2", "production_long"):
+            got = out.get(name)
+            if got is None:
+                continue
+            if isinstance(got, str):
+                res.append(("u3-production-raises", f"{name}({op}) raised {got}"))
+                continue
+            r = _judge([_model_op(op)], got, 1, (out.get("dists") or {}).get(name), f"U3GateToRotation.{name}({op})")
+            if r and r[0] == "not-same-action":
+                r = ("u3-not-equivalent", r[1])
+            res.append(r)
+        return _first(res)
     # circuit / symbolic
     import numpy as np
     specs = c["ops"]
@@ -715,8 +1853,8 @@ def oracle(c, out):
         return ("circuit-vs-operations", "decompose_orquestra_circuit and decompose_operations disagree")
     acts = out.get("actions")
     if acts is None:
-        if len(out["ops"]) != len(specs) + 2 * len(matched):
-            pass  # the property does not fix the length of a replacement
+        if out.get("seg") is not None:   # non-gate operations present: anchors kept, runs of gates act alike
+            return _judge([_model_op(o) for o in specs], out["ops"], c["rules"], out["seg"], "decompose_orquestra_circuit")
         return None
     n = out["n_in"]
     known = []
@@ -726,7 +1864,7 @@ def oracle(c, out):
         if _phase_verdict(U, V) != "no":
             continue
         if (_is_u3(spec["g"]) == "controlled" and not (k == "circuit" and _phase_trivial(spec["g"]))
-                and _relative_phase_form(U, V, n, spec["qs"], spec["g"]["k"])):
+                and _relative_phase_form(U, V, n, spec["qs"], spec["g"]["k"], _expected_q(spec["g"], c))):
             known.append(s["i"])
             continue
         return ("u3-not-equivalent", f"operation {s['i']} {spec} is replaced by a sequence with a different action")
@@ -759,6 +1897,21 @@ def oracle(c, out):
 def distribution(cases, outs):
     d = {"plain_u3": 0, "controlled_u3_trivial_phase": 0, "controlled_u3_relative_phase": 0, "controls": {},
          "rules": {}, "non_gate_ops": 0, "raised": 0, "declared_idle": 0, "max_width": 0, "unitaries_compared": 0}
+    d["exotic"], d["history_decompositions"], d["max_operations"], d["max_register"] = {}, 0, 0, 0
+    d["actions_compared_by_own_simulation"] = 0
+    for c, o in zip(cases, outs):
+        if c["kind"] == "exotic":
+            fl = c.get("flavour", "corpus")
+            d["exotic"][fl] = d["exotic"].get(fl, 0) + 1
+            d["max_operations"] = max(d["max_operations"], len(c["ops"]))
+            d["max_register"] = max(d["max_register"], _width(c))
+            if isinstance(o, dict) and o.get("dist"):
+                d["actions_compared_by_own_simulation"] += 1
+        if c["kind"] == "history" and isinstance(o, dict):
+            d["history_decompositions"] += len(o.get("recs", []))
+            d["actions_compared_by_own_simulation"] += sum(1 for r in o.get("recs", []) if r.get("dist"))
+        if c["kind"] == "chain":
+            d["max_operations"] = max(d["max_operations"], len(c["ops"]))
     for c, o in zip(cases, outs):
         if c["kind"] in ("circuit", "symbolic") and any(r[0] == "unitary" for r in requests(c, o)):
             d["unitaries_compared"] += 1
